@@ -1,5 +1,6 @@
 import Skglm.Driver.Proto
 import Skglm.Model.Datafits
+import Skglm.Model.BlockPenalties
 namespace Skglm.Ops
 open Skglm Skglm.Proto
 
@@ -49,4 +50,34 @@ def dfOps (op : String) : Option (P String) :=
       pure (fmtMat M.toDense)
   | _ => none
 
+end Skglm.Ops
+
+namespace Skglm.Ops
+open Skglm Skglm.Proto
+
+def pBlk : P (BlkPen Float) := do
+  let t ← tok
+  match t with
+  | "l21" => do let a ← pFloat; pure (.l21 a)
+  | "l205" => do let a ← pFloat; pure (.l205 a)
+  | "bmcp" => do let a ← pFloat; let g ← pFloat; pure (.bmcp a g)
+  | "bscad" => do let a ← pFloat; let g ← pFloat; pure (.bscad a g)
+  | "wgl2" => do let a ← pFloat; let p ← pBool; pure (.wgl2 a p)
+  | "wl1gl2" => do let a ← pFloat; pure (.wl1gl2 a)
+  | _ => throw s!"blk:{t}"
+
+def blkOps (op : String) : Option (P String) :=
+  match op with
+  | "blk_prox" => some do
+      let pen ← pBlk; let wg ← pFloat; let ⟨k, wf⟩ ← pVec; let x ← pVecN k; let s ← pFloat
+      pure (fmtVec (pen.proxBlk wg wf x s))
+  | "blk_pen" => some do
+      let pen ← pBlk; let wg ← pFloat; let ⟨k, wf⟩ ← pVec; let w ← pVecN k
+      pure (fmtE (pen.penBlk wg wf w))
+  | "blk_sd" => some do
+      let pen ← pBlk; let wg ← pFloat; let ⟨k, w⟩ ← pVec; let g ← pVecN k
+      match pen.sdBlk wg w g with
+      | some r => pure (fmtE r)
+      | none => pure "err:no-method"
+  | _ => none
 end Skglm.Ops
